@@ -120,6 +120,22 @@ W(v) == [t |-> "word", v |-> v]
 
 IsAtom(t) == t.k \in {"fld", "num", "str", "null", "call", "case"} /\ ~(t.k = "num" /\ t.n \in NegNums)
 
+\* the text of t begins with a '-' token (a unary minus, a negative numeral, or
+\* a compound whose leftmost operand does): after a binary '-' it would fuse
+\* into the comment opener "--"
+RECURSIVE LeadsWithMinus(_)
+LeadsWithMinus(t) ==
+    CASE t.k = "neg" -> TRUE
+      [] t.k = "num" -> t.n \in NegNums
+      [] t.k = "bin" -> LeadsWithMinus(t.l)
+      [] t.k \in {"isnull", "in", "between"} -> LeadsWithMinus(t.a)
+      [] OTHER -> FALSE
+\* a division sits on the left spine of a multiplication chain: as the right
+\* operand of '*' the chain would be re-associated around the division
+\* (2*((a/2)*2) is not ((2*a)/2)*2 in integer arithmetic)
+RECURSIVE LeftSpineHasDiv(_)
+LeftSpineHasDiv(t) == t.k = "bin" /\ (t.op = "/" \/ (t.op = "*" /\ LeftSpineHasDiv(t.l)))
+
 \* App. D: (i) weaker child; (ii) equal strength on the right of - or /, a / on
 \* the right of *, or a non-associative parent; (iii) a unary minus or negative
 \* numeral directly after a '-' ; (iv) non-atomic operand of unary minus.
@@ -138,10 +154,10 @@ NeedParens(parent, child, side) ==
           [] p \in {"+", "-"} ->
                  \/ cb < 6
                  \/ (cb = 6 /\ side = "R" /\ p = "-")
-                 \/ (side = "R" /\ p = "-" /\ c \in {"NEG", "negnum"})
+                 \/ (side = "R" /\ p = "-" /\ LeadsWithMinus(child))
           [] p \in {"*", "/"} ->
                  \/ cb < 7
-                 \/ (cb = 7 /\ side = "R" /\ (p = "/" \/ c = "/"))
+                 \/ (cb = 7 /\ side = "R" /\ (p = "/" \/ LeftSpineHasDiv(child)))
           [] OTHER -> FALSE
 
 \* the edges of a tree at which the intended design needs a bracket: the only
